@@ -45,6 +45,23 @@ impl UserFunction for Counting {
     }
 }
 
+/// Cacheable, and stateful per argument: the n-th *invocation* for an argument returns n. Within one
+/// evaluation every call with the same argument must therefore observe 1 on a fresh ruleset.
+#[derive(Default)]
+struct Ticket(std::sync::Mutex<BTreeMap<String, i128>>);
+#[async_trait::async_trait]
+impl UserFunction for Ticket {
+    async fn call(&self, param: Value) -> FunctionResult {
+        let mut m = self.0.lock().unwrap();
+        let n = m.entry(format!("{param:?}")).or_insert(0);
+        *n += 1;
+        Ok(Value::Int(*n))
+    }
+    fn name(&self) -> &'static str {
+        "ticket"
+    }
+}
+
 /// Pending once (self-wake), then ready: forces a suspension inside evaluation.
 struct YieldOnce(bool);
 impl Future for YieldOnce {
@@ -170,6 +187,26 @@ fn main() {
     assert_eq!(sequential, after, "evaluations after an abandoned / migrated one differ");
     for (i, got) in finisher.join().unwrap() {
         assert_eq!(sequential[i], got, "evaluation finished on another thread differs");
+    }
+    // first use of a *fresh* ruleset from several threads at once (lazily initialised state inside the
+    // ruleset must not make the first evaluations differ from later ones)
+    let fresh = Arc::new(
+        ruleset()
+            .with_rule(rule("t", Expr::Vec(vec![Expr::func("ticket", Expr::reff("x")), Expr::func("ticket", Expr::reff("x")), Expr::func("ticket", Expr::reff("x"))]))).unwrap()
+            .with_function(Ticket::default()).unwrap()
+            .build(),
+    );
+    let hs: Vec<_> = inputs
+        .iter()
+        .cloned()
+        .map(|facts| {
+            let rs = fresh.clone();
+            std::thread::spawn(move || summarise(&rs, &facts))
+        })
+        .collect();
+    for h in hs {
+        let got = h.join().unwrap();
+        assert_eq!(got, vec!["t=Vec([Int(1), Int(1), Int(1)])".to_string()], "first concurrent use of a fresh ruleset differs from sequential use");
     }
     // a standalone expression evaluated concurrently as well
     let e = Arc::new(Expr::mult(Expr::reff("x"), Expr::value(3)));
